@@ -17,6 +17,7 @@ import SkVerif.Lemmas.Naive
 import SkVerif.Lemmas.NaiveTop
 import SkVerif.Lemmas.Trend
 import SkVerif.Lemmas.History
+import SkVerif.Model.Adapter
 namespace SkVerif.C11
 open SkVerif SkVerif.Naive SkVerif.Lem.Naive SkVerif.History
 open SkVerif.Spec.Naive (window windowTimes meanOf sameSeason NormalEqs sse powers)
@@ -523,5 +524,73 @@ theorem trend_history_eq_fresh (d0 : Nat) (b0 : Bool) (y0 : List Val) (o0 : Int)
       · simp only [hn, Bool.false_eq_true, ↓reduceIte, TObj.predict]
         unfold Trend.fitPredict
         simp [hl, hc, hn, bind, Except.bind]
+
+/-! ## options handed to the wrapped statsmodels model (Model/Adapter.lean; tied to the code by recording the
+keyword arguments the statsmodels constructor / fit actually receive) -/
+
+open SkVerif.Adapter (Args esCtor esFit etsCtor etsFit thetaCtor smRejects)
+local notation "get" => Adapter.get
+
+/-- the statsmodels keyword that carries a forecaster parameter -/
+def smName (k : String) : String := if k == "sp" then "seasonal_periods" else k
+
+def esOptions : List String :=
+  ["trend", "damped_trend", "seasonal", "sp", "use_boxcox", "initial_level", "initial_trend", "initial_seasonal",
+   "initialization_method"]
+def etsOptions : List String :=
+  ["error", "trend", "damped_trend", "seasonal", "sp", "initialization_method", "initial_level", "initial_trend",
+   "initial_seasonal", "bounds", "dates", "freq", "missing"]
+def etsFitOptions : List String := ["start_params", "maxiter", "full_output", "disp", "callback", "return_params"]
+
+/-- `ExponentialSmoothing`: every documented option reaches the statsmodels constructor keyword of the same meaning,
+unchanged, whatever the values of the OTHER options (no option is dropped or rewritten depending on another), nothing
+else is passed, and `fit` is called without options -/
+theorem es_forwards_every_option (p : Args) :
+    (∀ k ∈ esOptions, get (esCtor p) (smName k) = get p k) ∧
+    (esCtor p).map (·.1) = esOptions.map smName ∧ esFit p = [] := by
+  refine ⟨?_, rfl, rfl⟩
+  intro k hk
+  simp only [esOptions, List.mem_cons, List.not_mem_nil, or_false] at hk
+  rcases hk with rfl | rfl | rfl | rfl | rfl | rfl | rfl | rfl | rfl <;> rfl
+
+/-- `AutoETS(auto=False)`: the same for the constructor and for the options of `fit` -/
+theorem ets_forwards_every_option (p : Args) :
+    (∀ k ∈ etsOptions, get (etsCtor p) (smName k) = get p k) ∧
+    (∀ k ∈ etsFitOptions, get (etsFit p) k = get p k) ∧
+    (etsCtor p).map (·.1) = etsOptions.map smName ∧ (etsFit p).map (·.1) = etsFitOptions := by
+  refine ⟨?_, ?_, rfl, rfl⟩
+  · intro k hk
+    simp only [etsOptions, List.mem_cons, List.not_mem_nil, or_false] at hk
+    rcases hk with rfl | rfl | rfl | rfl | rfl | rfl | rfl | rfl | rfl | rfl | rfl | rfl | rfl <;> rfl
+  · intro k hk
+    simp only [etsFitOptions, List.mem_cons, List.not_mem_nil, or_false] at hk
+    rcases hk with rfl | rfl | rfl | rfl | rfl | rfl <;> rfl
+
+/-- FULL STATEMENT (does not hold, see `theta_zero_level_witness`): the wrapped model of `ThetaForecaster` is simple
+exponential smoothing whose initial level is the given one ("known") exactly when one is given.
+Proved for every given level other than 0 (and for none given). -/
+theorem theta_wraps_ses_partial (p : Args) (h0 : get p "initial_level" ≠ "0") :
+    get (thetaCtor p) "trend" = "None" ∧ get (thetaCtor p) "seasonal" = "None" ∧ get (thetaCtor p) "damped_trend" = "F" ∧
+    get (thetaCtor p) "seasonal_periods" = get p "sp" ∧ get (thetaCtor p) "initial_level" = get p "initial_level" ∧
+    get (thetaCtor p) "initialization_method" = (if get p "initial_level" = "None" then "estimated" else "known") ∧
+    smRejects (thetaCtor p) = false := by
+  refine ⟨rfl, rfl, rfl, rfl, rfl, ?_, ?_⟩
+  · by_cases hn : Adapter.get p "initial_level" = "None"
+    · simp only [thetaCtor, hn, beq_self_eq_true, Bool.true_or, ↓reduceIte]; rfl
+    · have e : (Adapter.get p "initial_level" == "None" || Adapter.get p "initial_level" == "0") = false := by simp [hn, h0]
+      simp only [thetaCtor, e, hn, ↓reduceIte]; rfl
+  · by_cases hn : Adapter.get p "initial_level" = "None"
+    · simp only [smRejects, thetaCtor, hn, beq_self_eq_true, Bool.true_or, ↓reduceIte]; rfl
+    · have e : (Adapter.get p "initial_level" == "None" || Adapter.get p "initial_level" == "0") = false := by simp [hn, h0]
+      simp only [smRejects, thetaCtor, e]; rfl
+
+/-- negation at a witness: a given initial level of exactly 0 is forwarded together with "estimated", which statsmodels rejects -/
+theorem theta_zero_level_witness :
+    get (thetaCtor [("initial_level", "0"), ("sp", "1")]) "initialization_method" = "estimated" ∧
+    get (thetaCtor [("initial_level", "0"), ("sp", "1")]) "initial_level" = "0" ∧
+    smRejects (thetaCtor [("initial_level", "0"), ("sp", "1")]) = true := by
+  refine ⟨by decide, by decide, by decide⟩
+
+example : get (esCtor [("trend", "mul"), ("damped_trend", "T"), ("sp", "4")]) "damped_trend" = "T" := by decide
 
 end SkVerif.C11
